@@ -302,7 +302,7 @@ func ruleC06(p *Program, r *Run) {
 		if !ok || rs.Tok != token.DEFINE {
 			return true
 		}
-		if f := selField(info, rs.X); f == nil || f.Name() != "Parameters" {
+		if !p.allDefsAre(rs.X, func(x ast.Expr) bool { f := selField(info, x); return f != nil && f.Name() == "Parameters" }) {
 			return true
 		}
 		ast.Inspect(rs.Body, func(m ast.Node) bool {
